@@ -56,6 +56,16 @@ def render(c):
         inner = ' where c = 1' if c['inner'] == 'c=1' else ''
         return 'with cc as (select * from int2.t2%s) select * from int1.t1 %s cc on t1.a = cc.a%s' % (
             inner, KIND[c['kind']], where(c['where']))
+    if sh == 'cteshadow':
+        i1 = ' where b > 1' if c['inner'] == 'b>1' else ''
+        i2 = ' where c > 1' if c['inner'] == 'b>1' else ''
+        return {
+            'join': 'with t2 as (select a, b from int1.t1%s) select t2.a, t2.b, x.c from t2 join int2.t2 as x on t2.a = x.a' % i1,
+            'insub': 'with t2 as (select a, b from int1.t1%s) select * from t2 where a in (select a from int2.t2)' % i1,
+            'own-source': 'with t2 as (select a, c from int2.t2%s) select t1.a, t2.c from int1.t1 join t2 on t1.a = t2.a' % i2,
+            'join-t3': 'with t3 as (select a, c from int2.t2%s) select t3.a, y.b from t3 join int1.t3 as y on t3.c = y.c' % i2,
+            'join-default': 'with t1 as (select a, c from int2.t2%s) select t1.a, y.b from t1 join int1.t1 as y on t1.a = y.a' % i2,
+        }[c['use']]
     if sh == 'nested':
         inner = {'none': '', 'b=1': ' where b = 1', 'limit1': ' order by a limit 1'}[c['inner']]
         return 'select * from (select * from int1.t1%s) as s %s int2.t2 on s.a = t2.a%s' % (inner, KIND[c['kind']],
